@@ -12,8 +12,9 @@ bound  the stated bound
 """
 
 
-def H(name, crate, tier, cap, sym, bound):
-	return dict(name=name, crate=crate, tier=tier, cap=cap, sym=sym, bound=bound)
+def H(name, crate, tier, cap, sym, bound, gb=2.0):
+	"""gb = expected peak memory of the CBMC process (scheduling weight)."""
+	return dict(name=name, crate=crate, tier=tier, cap=cap, sym=sym, bound=bound, gb=gb)
 
 
 COMMON_ASSUMPTIONS = [
@@ -116,4 +117,215 @@ PROPS["C13"] = dict(
 		H("print::c08_string_literal_1char", "ext", "quick", 900, "c: any Unicode scalar value (1,112,064 one-character strings)", "unwind 6"),
 		H("print::c08_string_literal_2chars", "ext", "quick", 900, "c1, c2 from a 12-character escape-relevant alphabet", "unwind 6"),
 	],
+)
+
+# ---------------------------------------------------------------------------
+# parser units (in-crate). One harness family serves several properties; the
+# assertion labels (C01:.., C02:.., C05:.., C07:.., C12:..) say which.
+_CH = "each character any Unicode scalar value; parser base offset <= 2^20; both option flags symbolic; context symbolic over the four contexts"
+L1 = [H("parse::verif::l1_whitespace_and_follow_sets", "in", "quick", 120, "c: any Unicode scalar value, context: all four", "no loop")]
+L2 = [H("parse::verif::l2_bool_n%d" % n, "in", "quick", 300, "%d characters, %s" % (n, _CH), "n=%d, unwind 7" % n) for n in (0, 3, 4, 5, 6)] + \
+     [H("parse::verif::l2_null_n%d" % n, "in", "quick", 300, "%d characters, %s" % (n, _CH), "n=%d, unwind 7" % n) for n in (0, 3, 4, 5)]
+L3 = [H("parse::verif::l3_number_n%d" % n, "in", "quick" if n <= 6 else "thorough", 900 if n <= 6 else 3600,
+        "%d characters, %s" % (n, _CH), "n=%d, unwind %d" % (n, n + 2)) for n in range(0, 9)]
+
+L4 = [H("parse::verif::l4_string_n%d" % n, "in", "quick" if n <= 4 else "thorough", 1800 if n <= 4 else 5400,
+        "%d characters (the opening quote position included), %s" % (n, _CH), "n=%d, unwind %d" % (n, max(3, n + 1))) for n in range(0, 6)]
+L4A = [H("parse::verif::l4_alpha_n%d" % n, "in", "quick" if n <= 6 else "thorough", 1800 if n <= 6 else 5400,
+         "opening quote + %d characters over the 12-character alphabet {\" \\ u n / a 0 d 8 c U+001F U+00E9}; base offset; both option flags" % (n - 1),
+         "n=%d, unwind %d" % (n, n + 1)) for n in (6, 7, 8)]
+_SH = "hex digit VALUES and per-digit case bits symbolic (all spellings of all code units in the class), raw characters any scalar >= U+0020 except quote/backslash; base offset; both option flags"
+D1 = [H("parse::verif::d1_escape_any", "in", "quick", 900, "one \\uXXXX escape, all 65,536 code units x 2^4 case choices; " + _SH, "unwind 3"),
+      H("parse::verif::d1_escape_any_any", "in", "quick", 1800, "two \\uXXXX escapes, all 2^32 digit combinations x 2^8 case choices; " + _SH, "unwind 4")]
+_S1 = ["h", "l", "o", "r", "e"]
+_S2 = ["hh", "hl", "ho", "hr", "he", "lh", "ll", "lo", "lr", "oh", "ol", "oo", "or", "rh", "rl", "ro", "rr"]
+_S3 = ["hhl", "hlh", "hll", "lhl", "hrl", "hel", "rhl", "hlr", "ohl", "hol", "lll", "hhh", "h_open", "hl_open"]
+SH = [H("parse::verif::c12_" + s_, "in", "quick", 1200, "elements " + s_ + " (h high-surrogate escape, l low-surrogate escape, o other \\uXXXX, r raw character, e two-character escape); " + _SH, "unwind %d" % (len(s_) + 2)) for s_ in _S1 + _S2] + \
+     [H("parse::verif::c12_" + s_, "in", "thorough", 3600, "elements " + s_ + "; " + _SH, "unwind %d" % (len(s_.replace("_open", "")) + 2)) for s_ in _S3]
+
+
+# ---------------------------------------------------------------------------
+_IM = "object::index_map::verif::"
+I1 = [H(_IM + "i1_indexes_%d" % n, "in", "quick", 600,
+        "Indexes with %d position(s): all ascending position tuples < 8; operation (insert/remove/shift_up/shift_down) and its argument i < 9 symbolic" % n,
+        "unwind 7") for n in (1, 2, 3, 4)]
+_K3 = "three entries with keys symbolic over {a, b, c, ''} (a, c, '' collide under the model hasher, b does not)"
+I2 = [H(_IM + "i2_insert_n%d" % n, "in", "quick", 900, _K3 + "; pre-state = canonical index of the first %d" % n, "unwind 6") for n in (0, 1, 2)] + \
+     [H(_IM + "i2_insert_front_n%d" % n, "in", "quick", 900, _K3 + "; pre-state = canonical index of the %d old entries" % n, "unwind 6") for n in (0, 1, 2)] + \
+     [H(_IM + "i2_remove_n%d" % n, "in", "quick", 900, _K3 + "; pre-state = canonical index of %d entries; removed position symbolic" % n, "unwind 6") for n in (1, 2, 3)] + \
+     [H(_IM + "i2_clear_rebuild", "in", "quick", 900, _K3 + "; arbitrary previous canonical index (3 more symbolic keys)", "unwind 6")]
+
+PROPS["C06"] = dict(
+	design_ref="DESIGN.md §4 C06",
+	level_text="One-step inductive bounded model checking: every index primitive is run from an ARBITRARY state satisfying the representation invariant (built by the harness, so unreachable-but-consistent states are covered too) and must re-establish the invariant and the linear-scan semantics; the Object-level operations are then checked on small objects against a list model. One inductive step covers histories of any length within the size bound.",
+	level_note="hashbrown's RawTable/ahash are replaced by the contract-checking model table (trusted, not verified). Sizes: Indexes <= 4 positions < 8; IndexMap over <= 3 entries and a 4-key universe; Object operations on <= 2 entries.",
+	functions=["object::index_map::Indexes::{insert,remove,shift_up,shift_down,first,len,is_redundant}",
+	           "object::index_map::IndexMap::{get,insert,remove,shift_up,shift_down,clear,contains_duplicate_keys}"],
+	bounds="Indexes: <= 4 positions, all < 8; IndexMap: <= 3 entries, keys in {a,b,c,''}; Object: <= 2 entries (<= 3 after the operation)",
+	outside=["Object operations on >= 3 entries (only the index primitives are decided at that size)", "growth/rehash behaviour of the real hashbrown table", "keys longer than one byte"],
+	stubs=[],
+	assumptions=["model table: at most 4 distinct keys; insert re-hashes every stored element through the caller's hasher and asserts the stored hash (stale representative detection)"],
+	harnesses=I1 + I2,
+)
+
+# ---------------------------------------------------------------------------
+_PV = "parse::verif::"
+S1 = [H(_PV + "s1_array_start_n%d" % n, "in", "quick", 600, "%d characters, each any Unicode scalar value; base offset; options; context" % n, "n=%d, unwind %d" % (n, max(n + 2, 5))) for n in range(0, 5)] + \
+     [H(_PV + "s1_array_continue_n%d" % n, "in", "quick", 600, "%d characters, each any Unicode scalar value; base offset; index (0..2) and start of the open array entry in a 3-entry code map" % n, "n=%d, unwind %d" % (n, max(n + 2, 5))) for n in range(0, 4)] + \
+     [H(_PV + "s1_object_start_n%d" % n, "in", "quick", 1800, "%d characters, each any Unicode scalar value; base offset; context" % n, "n=%d, unwind %d" % (n, max(n + 2, 5)), gb=4.0) for n in range(0, 5)] + \
+     [H(_PV + "s1_object_continue_n%d" % n, "in", "quick", 1800, "%d characters, each any Unicode scalar value; base offset" % n, "n=%d, unwind %d" % (n, max(n + 2, 5)), gb=4.0) for n in range(0, 5)] + \
+     [H(_PV + "s1_object_start_shaped", "in", "quick", 1800, "'{' ws? '\"' c '\"' ws? x: optional whitespace characters (any of the four), key character c any scalar >= U+0020 except quote/backslash, terminator x any non-whitespace; base offset; options", "unwind 4", gb=4.0),
+      H(_PV + "s1_object_continue_shaped", "in", "quick", 1800, "ws? sep ws? '\"' c '\"' ws? x: sep any non-whitespace, c as above, x any non-whitespace; base offset; options; index and start of the open object entry", "unwind 5", gb=4.0)]
+L5 = [H("utf8::l5_null_slice_n%d" % n, "ext", "quick" if n <= 4 else "thorough", 1800, "%d bytes, each any value 0..=255, through <() as Parse>::parse_slice" % n, "n=%d, unwind 7" % n, gb=3.0) for n in range(1, 6)]
+
+
+
+# ---------------------------------------------------------------------------
+def pick(family, quick, thorough=()):
+	"""Harnesses of `family` whose short name is in `quick` (tier quick) or `thorough`."""
+	out = []
+	for h in family:
+		short = h["name"].split("::")[-1]
+		if short in quick:
+			out.append(dict(h, tier="quick"))
+		elif short in thorough or thorough == "rest":
+			out.append(dict(h, tier="thorough"))
+	return out
+
+
+def names(prefix, ns):
+	return [prefix + str(n) for n in ns]
+
+
+_OUTSIDE_PARSE = [
+	"the driver loop of Value::parse_in (src/parse/value.rs: stack machine composing the fragment parsers, root trailing-garbage check, closing of entry fragments, pushing items/entries in order): not decided by this technique (DESIGN.md §4 S2); a change confined to value.rs is not detected",
+	"whole documents; agreement of the nine entry points (one-line wrappers around parse_in; executed here: Parser::new/new_with + parse_in, and parse_slice through the `null` unit)",
+	"lexemes longer than the stated per-unit bounds; strings/keys/numbers longer than 16 bytes (heap representation of smallvec)",
+]
+_PARSE_FUNCS = ["parse::is_whitespace", "parse::Context::follows", "<bool as Parse>::parse_in", "<() as Parse>::parse_in",
+                "<NumberBuf as Parse>::parse_in", "<SmallString as Parse>::parse_in", "parse::string::parse_hex4",
+                "parse::array::{StartFragment,ContinueFragment}::parse_in", "parse::object::{StartFragment,ContinueFragment}::parse_in",
+                "Parser::{new_with,begin_fragment,end_fragment,peek_char,next_char,skip_whitespaces}", "Parse::parse_slice (null unit)", "CodeMap::{reserve,get_mut}"]
+_PARSE_ASSUME = ["parser pre-state: arbitrary byte offset <= 2^20 already consumed and 1..=3 code-map entries already recorded (any state a document prefix can leave)",
+                 "inputs are character arrays of concrete length per harness instance with symbolic contents; shaped harnesses fix the positions of quotes/escapes and leave hex digit values, case bits, raw characters and whitespace choices symbolic"]
+
+PROPS["C01"] = dict(
+	design_ref="DESIGN.md §4 C01",
+	level_text="Bounded model checking of every unit the parser is composed of (whitespace/follow sets, literals, numbers in all four contexts, strings, array/object start/continue fragments, the byte-slice UTF-8 layer) against flat reference automata written from RFC 8259: for every character array within the bound the unit accepts iff the reference does, consumes exactly the lexeme, and leaves the look-ahead pending. Whole documents and the driver loop are outside the claim.",
+	level_note="Unit-level claim: the composition of the units by the 90-line driver loop in src/parse/value.rs is read-only, not decided. References are table/automaton code independent of the crate's nested matches; trusted.",
+	functions=_PARSE_FUNCS, bounds="literals: <= 6 chars; numbers: <= 6 (quick) / 8 (thorough) chars; strings: <= 4 (quick) / 5 (thorough) fully symbolic chars, 6-8 chars over a 12-character alphabet (thorough); fragments: <= 4 fully symbolic chars plus shaped key inputs; byte input: <= 5 bytes",
+	outside=_OUTSIDE_PARSE, stubs=[STUB_GROW], assumptions=_PARSE_ASSUME,
+	harnesses=L1 + L2 + pick(L3, names("l3_number_n", range(0, 7)), "rest") + pick(L4, names("l4_string_n", range(0, 5)), "rest")
+	+ pick(L4A, [], "rest") + S1 + pick(L5, names("l5_null_slice_n", (1, 3, 5)), "rest"),
+)
+
+PROPS["C02"] = dict(
+	design_ref="DESIGN.md §4 C02",
+	level_text="Bounded model checking of the decoding done by each lexical unit: every \\uXXXX escape (all 65,536 code units, all spellings), every pair of escapes (all 2^32 digit combinations: surrogate pairs combine into exactly one scalar), every raw scalar value, every two-character escape, number spellings kept byte-for-byte, literals mapped to null/true/false, keys decoded like strings.",
+	level_note="Scalars and keys only: that items and entries are pushed in source order with duplicates preserved is done by the driver loop (outside the claim); Object::push itself is C06.",
+	functions=_PARSE_FUNCS, bounds="strings: one or two escapes / up to 4 fully symbolic characters; numbers: <= 6 chars; keys: 1 character of any UTF-8 length",
+	outside=_OUTSIDE_PARSE + ["order of array items / object entries (driver loop)"], stubs=[STUB_GROW], assumptions=_PARSE_ASSUME,
+	harnesses=D1 + pick(SH, ["c12_r", "c12_e", "c12_rr", "c12_hl"]) + pick(L4, names("l4_string_n", (2, 3)), ["l4_string_n4"])
+	+ pick(L3, names("l3_number_n", (1, 3, 5, 6)), ["l3_number_n8"]) + pick(L2, ["l2_bool_n4", "l2_bool_n5", "l2_null_n4"])
+	+ pick(S1, ["s1_object_start_shaped", "s1_object_continue_shaped"]),
+)
+
+PROPS["C05"] = dict(
+	design_ref="DESIGN.md §4 C05",
+	level_text="Bounded model checking of the code-map effect of every unit: a scalar records exactly one entry (start offset, end offset in BYTES, volume 1); array/object start reserve the container entry (and for objects the entry and key entries, in pre-order, the key entry closed with the key's span); continue-fragments close the container with volume = number of entries recorded since it was opened; all for an arbitrary base offset and multi-byte characters.",
+	level_note="Per fragment kind. The closing of *entry* fragments after their value and the pre-order composition over a whole document are done by the driver loop: outside the claim.",
+	functions=_PARSE_FUNCS, bounds="as C01 units; base offset <= 2^20; 1..=3 pre-existing code-map entries",
+	outside=_OUTSIDE_PARSE + ["closing of object-entry fragments (value.rs:157) and whole-map pre-order/volume consistency"], stubs=[STUB_GROW], assumptions=_PARSE_ASSUME,
+	harnesses=pick(S1, [h["name"].split("::")[-1] for h in S1]) + pick(L2, ["l2_bool_n4", "l2_bool_n5", "l2_null_n4"])
+	+ pick(L3, names("l3_number_n", (1, 3, 5)), ["l3_number_n7"]) + pick(L4, names("l4_string_n", (2, 3)), ["l4_string_n4"]) + pick(SH, ["c12_rr"]),
+)
+
+PROPS["C07"] = dict(
+	design_ref="DESIGN.md §4 C07",
+	level_text="Bounded model checking of the error reported by every unit: on rejection the error is Unexpected(p, c) with p the byte length of the longest prefix the reference automaton can still extend and c the character there (None exactly at end of input); surrogate errors carry the offending code units and a span inside the offending escapes; ill-formed UTF-8 in byte input is reported at the first ill-formed sequence unless a syntax error lies strictly before it.",
+	level_note="Unit-level: the threading of positions through the driver loop and the root trailing-garbage error are outside the claim. Surrogate-error spans are required to lie within the offending escape(s) up to the element that revealed the problem, not at an exact offset.",
+	functions=_PARSE_FUNCS, bounds="as C01 units",
+	outside=_OUTSIDE_PARSE, stubs=[STUB_GROW], assumptions=_PARSE_ASSUME,
+	harnesses=L2 + pick(L3, names("l3_number_n", range(0, 7)), "rest") + pick(L4, names("l4_string_n", range(0, 5)), "rest") + pick(L4A, [], "rest")
+	+ S1 + pick(L5, names("l5_null_slice_n", (1, 2, 3, 4)), "rest") + pick(SH, ["c12_h", "c12_l", "c12_ho", "c12_hr", "c12_he", "c12_lh"], ["c12_hh", "c12_hhl", "c12_h_open", "c12_hl_open"]),
+)
+
+PROPS["C12"] = dict(
+	design_ref="DESIGN.md §4 C12",
+	level_text="Bounded model checking of the string unit under all four option combinations at once (both flags symbolic): for every sequence of <= 2 (quick) / 3 (thorough) elements over {high-surrogate escape, low-surrogate escape, other escape, raw character} with all digit values symbolic, strict success implies the same value and code map under every option value, each unpaired high surrogate becomes exactly one U+FFFD iff the truncated-pair option is on, each lone low surrogate exactly one U+FFFD iff the invalid-code-point option is on, otherwise the strict error; every other unit is run with symbolic options and must not depend on them.",
+	level_note="String unit in value and key position (the key parser is the same function; the object fragment harnesses run it in key position with symbolic options). Documents as wholes are outside the claim.",
+	functions=_PARSE_FUNCS, bounds="<= 2 elements (quick), selected 3-element sequences (thorough); all other units as in C01",
+	outside=_OUTSIDE_PARSE, stubs=[STUB_GROW], assumptions=_PARSE_ASSUME,
+	harnesses=pick(SH, ["c12_" + x for x in _S1 + _S2], "rest") + pick(D1, ["d1_escape_any"], "rest") + pick(L2, ["l2_bool_n4", "l2_null_n4"])
+	+ pick(L3, ["l3_number_n3"]) + pick(S1, ["s1_array_start_n2", "s1_array_continue_n2", "s1_object_start_shaped", "s1_object_continue_shaped"]) + pick(L4, ["l4_string_n3"], ["l4_string_n4"]),
+)
+
+# ---------------------------------------------------------------------------
+_OV = "object::verif::"
+_OBJ = "object of %d entries built directly from an entry vector (keys symbolic over {a,b,c,''}, values symbolic over 4 scalars) plus the harness-built canonical index"
+I3 = [H(_OV + "i3_object_op_n%d" % n, "in", "quick", 2400,
+        (_OBJ % n) + "; one operation symbolic over push / push_front / insert / remove_at / remove(key) / remove_unique with symbolic key, value, position and (for the removal iterators) consumed / partially consumed / dropped",
+        "n=%d, unwind 6" % n, gb=6.0) for n in (0, 1, 2)]
+PROPS["C06"]["harnesses"] = I1 + I2 + I3
+PROPS["C06"]["functions"] += ["Object::{push,push_entry,push_front,push_entry_front,insert,remove_at,remove,remove_unique,len,is_empty,contains_key,index_of,redundant_index_of,indexes_of,get,get_entries_with_index,get_unique}",
+                              "RemovedByInsertion/RemovedEntries iterators and their Drop"]
+
+C09H = [H(_OV + "c09_member_order_is_utf16_1char", "in", "quick", 600, "two one-character keys, each any Unicode scalar value (all 1,112,064^2 pairs); values over {null,false,true}", "unwind 6"),
+        H(_OV + "c09_member_order_is_utf16_2chars", "in", "quick", 1200, "two keys of 0..=2 characters, each character any Unicode scalar value", "unwind 8")]
+C10H = [H(_OV + "c10_comparator_is_a_total_order", "in", "quick", 1800, "three entries, keys of 0..=2 arbitrary characters, values over {null,false,true}", "unwind 8", gb=4.0),
+        H(_OV + "c10_canonicalize_leaves_non_number_scalars_alone", "in", "quick", 600, "null / any boolean / any string of 0..=2 arbitrary characters", "unwind 6")]
+C08S = [h for h in PROPS["C13"]["harnesses"] if "c08_" in h["name"]]
+
+PROPS["C09"] = dict(
+	design_ref="DESIGN.md §4 C09",
+	level_text="Bounded model checking of the comparator Object::canonicalize_with hands to sort_by (object::canonical_cmp) against UTF-16 code-unit order for ALL pairs of one-character keys and all pairs of keys of <= 2 characters, plus the string escaping every printed key and string goes through (all one-character strings). Number canonicalization is NOT decided.",
+	level_note="Numbers are outside the claim: Number::canonical_with is lexical's float parser followed by ryu-js (floating point, 128-bit multiplications) and is beyond CBMC at any useful digit count; the known 1-ulp deviations for > 19 digits stay invisible to this check. That canonicalize_with really sorts with this comparator is trusted to std's sort_by (C10 reduction); the recursion over children is read-only.",
+	functions=["object::canonical_cmp", "print::string_literal", "print::printed_string_size"],
+	bounds="keys <= 2 characters; strings <= 2 characters",
+	outside=["number canonicalization (floating point)", "Object::canonicalize_with / Object::sort wrappers on heap objects (std sort_by trusted)", "keys longer than 2 characters"],
+	stubs=[STUB_GROW], assumptions=["keys are compared through the real canonical_cmp on stack-allocated entries"],
+	harnesses=C09H + [dict(h, tier="quick") for h in C08S],
+)
+
+PROPS["C10"] = dict(
+	design_ref="DESIGN.md §4 C10",
+	level_text="Reduction decided by the solver: (1) the canonicalization comparator is a total order consistent with entry equality (so the sorted arrangement of any multiset of entries is unique up to swapping equal entries: idempotence and member-order blindness for every object size), (2) clearing and rebuilding the key index yields the canonical index from any previous state (object stays queryable), (3) non-number scalars are left untouched.",
+	level_note="std's slice::sort_by is trusted to return a permutation sorted under the comparator it is given; numbers (double value, respelling) are outside the claim (floating point); respellings of whole documents go through whole-document parsing (outside); the escape-insensitivity of strings is C02's decoding result.",
+	functions=["object::canonical_cmp", "IndexMap::{clear,insert}", "Value::canonicalize_with (scalars)"],
+	bounds="keys <= 2 characters; index rebuild over <= 3 entries",
+	outside=["numbers", "Object::canonicalize_with on heap objects (sort_by trusted)", "documents as wholes"],
+	stubs=[STUB_GROW], assumptions=[],
+	harnesses=C10H + pick(I2, ["i2_clear_rebuild", "i2_insert_n2"]) + pick(C09H, ["c09_member_order_is_utf16_1char"]),
+)
+
+C14O = [H(_OV + "c14_index_independence_n%d" % n, "in", "quick", 2400, (_OBJ % n) + " vs. the same entries with an EMPTY index, and vs. another symbolic key list", "n=%d, unwind 10" % n, gb=6.0) for n in (0, 1, 2)] + \
+       [H(_OV + "c14_clone_n%d" % n, "in", "quick", 2400, _OBJ % n, "n=%d, unwind 6" % n, gb=6.0) for n in (1, 2)]
+C14E = [H("order::c14_laws_scalars", "ext", "quick", 1800, "three scalars: null / any boolean / number from 6 spellings / string of 0..=2 arbitrary characters", "unwind 10", gb=4.0),
+        H("order::c14_laws_value_slices", "ext", "quick", 2400, "three [Value] slices of length 0..=2 over scalars with strings of <= 1 arbitrary character", "unwind 10", gb=6.0),
+        H("order::c14_laws_entries", "ext", "quick", 1800, "three entries: keys of 0..=2 arbitrary characters, values null / boolean / number", "unwind 10", gb=4.0),
+        H("order::c14_laws_entry_slices", "ext", "quick", 2400, "three [Entry] slices of length 0..=2, keys of <= 1 arbitrary character", "unwind 10", gb=6.0)]
+
+PROPS["C14"] = dict(
+	design_ref="DESIGN.md §4 C14",
+	level_text="Bounded model checking of the Eq/Ord/Hash laws (reflexive, antisymmetric, transitive, Equal exactly when ==, partial_cmp = Some(cmp), equal values produce identical hasher input) on symbolic triples of stack values — scalars, [Value] slices (the code Vec<Value> derefs to), entries and [Entry] slices (the code Object's ==/cmp/hash deref to) — and of index independence: an object with the canonical index and one with an EMPTY index over the same entries are ==, compare Equal and hash identically; clones equal their originals and keep a working index.",
+	level_note="History independence follows from C06 (the entry list after each operation is the model's) plus index independence. Larger/nested values are outside the bound.",
+	functions=["derive(PartialEq, Eq, PartialOrd, Ord, Hash) for Value and Entry", "impl PartialEq/Eq/PartialOrd/Ord/Hash for Object", "Object::clone"],
+	bounds="strings/keys <= 2 characters; slices <= 2 elements; objects <= 2 entries",
+	outside=["nested arrays/objects beyond one slice level", "objects with more than 2 entries"],
+	stubs=[STUB_GROW], assumptions=["hash coherence is checked with a recording Hasher (length-prefixed writes compared word-wise)"],
+	harnesses=C14E + C14O,
+)
+
+C11H = [H(_OV + "c11_array_iter_mapped_k%d" % k, "in", "quick", 900, "%d items; code map of 16 entries with arbitrary volumes except the children's roots, whose volumes are symbolic 1..=3; container offset 0..=2" % k, "k=%d, unwind 18" % k) for k in range(0, 4)] + \
+       [H(_OV + "c11_object_mapped_n%d" % n, "in", "quick", 2400, "%d entries with symbolic keys over {a,b,c,''}; value volumes symbolic 1..=3; container offset 0..=1; query key symbolic (present / duplicated / absent)" % n, "n=%d, unwind 18" % n, gb=6.0) for n in range(0, 4)]
+
+PROPS["C11"] = dict(
+	design_ref="DESIGN.md §4 C11",
+	level_text="Bounded model checking of the mapped iterators and key-based mapped lookups over code maps built per the C05 specification with children of ARBITRARY size (symbolic volumes: the iterators read only sibling volumes, never descend), for arrays of <= 3 items and objects of <= 3 entries with a symbolic query key.",
+	level_note="Assumes the C05 layout of the code map (checked separately per fragment kind); parsed documents cannot be produced inside a harness. Fragment lookup (get_fragment / traverse / volume) and the TryFromJson conversions on heap shapes are covered only as far as the thorough tier completes; BTreeMap conversion is outside.",
+	functions=["<[Value] as JsonArray>::iter_mapped", "array::IterMapped::next", "Object::{iter_mapped,get_mapped,get_mapped_entries_with_index,get_unique_mapped,get_unique_mapped_entry}", "object::IterMapped::next", "MappedEntries*/MappedValues*::next"],
+	bounds="<= 3 children per container, child volumes 1..=3, container offset <= 2, code map of 16 entries",
+	outside=["deep heap shapes", "BTreeMap conversion", "get_fragment/traverse/volume on heap values (thorough attempt only)"],
+	stubs=[STUB_GROW], assumptions=["code map laid out as specified by C05: array child i at base+1+sum of earlier volumes; object entry i at base+1+sum of (2+value volume), key at +1, value at +2"],
+	harnesses=C11H,
 )
